@@ -27,7 +27,7 @@ func cvc5Prep(q string) string {
 }
 
 var solvers = []solverSpec{
-	{"z3-5.1", func(f string, t int) []string { return []string{"z3-new", fmt.Sprintf("-T:%d", t), f} }, nil},
+	{"z3-5.1", func(f string, t int) []string { return []string{"z3-new", "smtlib2_compliant=true", fmt.Sprintf("-T:%d", t), f} }, nil},
 	{"z3-4.8", func(f string, t int) []string { return []string{"z3", fmt.Sprintf("-T:%d", t), f} }, nil},
 	{"cvc5", func(f string, t int) []string {
 		return []string{"cvc5", fmt.Sprintf("--tlimit=%d", t*1000), "--full-saturate-quant", f}
@@ -41,12 +41,18 @@ type solveResult struct {
 	detail string
 }
 
+// firstLine returns the solver's answer line: "success" acknowledgements (z3 5.1 prints them in its SMT-LIB compliant mode)
+// are skipped, and an error reported before the answer IS the answer - z3 5.1 otherwise keeps going without the rejected
+// assertion (and, outside compliant mode, silently coerces Bool to Int), so an ill-sorted query could come back "unsat".
 func firstLine(s string) string {
-	s = strings.TrimSpace(s)
-	if i := strings.IndexByte(s, '\n'); i >= 0 {
-		return strings.TrimSpace(s[:i])
+	for _, l := range strings.Split(s, "\n") {
+		l = strings.TrimSpace(l)
+		if l == "" || l == "success" {
+			continue
+		}
+		return l
 	}
-	return s
+	return ""
 }
 
 // raceSolve runs all solvers on the query and returns the first definite answer.
@@ -248,7 +254,7 @@ func lightSolve(query, dir, base string) solveResult {
 	t0 := time.Now()
 	ctx, cancel := context.WithTimeout(context.Background(), 5*time.Second)
 	defer cancel()
-	out, _ := exec.CommandContext(ctx, "z3-new", "-T:3", file).CombinedOutput()
+	out, _ := exec.CommandContext(ctx, "z3-new", "smtlib2_compliant=true", "-T:3", file).CombinedOutput()
 	r := solveResult{solver: "z3-5.1(light)", timeS: time.Since(t0).Seconds()}
 	if firstLine(string(out)) == "unsat" {
 		r.status = "unsat"
@@ -262,7 +268,7 @@ func lightSolveAny(query, dir, base string) solveResult {
 	t0 := time.Now()
 	ctx, cancel := context.WithTimeout(context.Background(), 4*time.Second)
 	defer cancel()
-	out, _ := exec.CommandContext(ctx, "z3-new", "-T:2", file).CombinedOutput()
+	out, _ := exec.CommandContext(ctx, "z3-new", "smtlib2_compliant=true", "-T:2", file).CombinedOutput()
 	r := solveResult{solver: "z3-5.1(light)", timeS: time.Since(t0).Seconds()}
 	switch firstLine(string(out)) {
 	case "unsat":
